@@ -21,6 +21,9 @@ import (
 
 type WOutcome struct {
 	Changes []string `json:"changes"` // change script of the real planner (joined lines contain \n)
+	// TrueChanges: planned from the configuration the device REALLY has, when the session sees less
+	// (Case.SeenDevice): the device-side truth of `write memory only if every change was accepted`
+	TrueChanges []string `json:"true_changes,omitempty"`
 	Lines   []string `json:"lines"`
 	Status  int      `json:"status"`
 	Stderr  string   `json:"stderr"`
@@ -30,7 +33,7 @@ type WOutcome struct {
 // planner: the change script the real code derives (drc FILE1 FILE2, in-process)
 func plannedChanges(dir string, c *Case) []string {
 	WriteFiles(dir, map[string]string{
-		"plan/device":      strings.Join(c.Device, "\n") + "\n",
+		"plan/device":      strings.Join(seenDevice(c), "\n") + "\n",
 		"plan/router":      strings.Join(c.Target, "\n") + "\n",
 		"plan/router.info": `{"model":"IOS","name_list":["router"],"ip_list":["10.1.13.33"]}` + "\n",
 	})
@@ -44,6 +47,13 @@ func plannedChanges(dir string, c *Case) []string {
 		l = append(l, strings.ReplaceAll(x, "\\N ", "\n"))
 	}
 	return l
+}
+
+func seenDevice(c *Case) []string {
+	if c.SeenDevice != nil {
+		return c.SeenDevice
+	}
+	return c.Device
 }
 
 func runWorker(in, out string) {
@@ -62,8 +72,14 @@ func runWorker(in, out string) {
 		dir := filepath.Join(base, fmt.Sprint(i))
 		os.MkdirAll(dir, 0755)
 		ch := plannedChanges(dir, &cases[i])
+		var tch []string
+		if cases[i].SeenDevice != nil {
+			full := cases[i]
+			full.SeenDevice = nil
+			tch = plannedChanges(dir, &full)
+		}
 		o := runDialog(dir, &cases[i])
-		res[i] = WOutcome{Changes: ch, Lines: o.Lines, Status: o.Status, Stderr: o.Stderr, Panic: o.Panic}
+		res[i] = WOutcome{Changes: ch, TrueChanges: tch, Lines: o.Lines, Status: o.Status, Stderr: o.Stderr, Panic: o.Panic}
 		os.RemoveAll(dir)
 	}
 	b, _ := json.Marshal(res)
